@@ -280,7 +280,12 @@ Inductive sevent :=
 | EKill (p : pid)
 | ECancel (t : tid)
 | EStop (p : pid)     (* SIGSTOP: the process's threads and heartbeats take no step until ... *)
-| ECont (p : pid).    (* ... SIGCONT *)
+| ECont (p : pid)     (* ... SIGCONT *)
+| ECrashCreate (t : tid) (p : pid) (garbage : bool).
+  (* thread t of a new process p calls Lock and the process is killed between the O_EXCL create and
+     the end of the metadata write: LStart, LTryCreate, LKill.  With [garbage] the crash hit the middle
+     of the write and left undecodable contents - that part is outside the LTS (whose metadata write is
+     one atomic step): the simulator patches the content of the dead creator's inode *)
 
 Definition transient_label (s : state) (t : tid) : option label :=
   match cs s t with
@@ -342,7 +347,7 @@ Definition label_of_event (e : sevent) : label :=
   | EUnlock t => LUnlock t
   | EKill p => LKill p
   | ECancel t => LCancel t
-  | EStop _ | ECont _ => LTick 0
+  | EStop _ | ECont _ | ECrashCreate _ _ _ => LTick 0
   end.
 
 Record sim := Sim {
@@ -386,6 +391,25 @@ Definition rm_due (m : sim) (t : tid) : option Z :=
       | None => None
       end
   | _ => None
+  end.
+
+Definition garble (m : sim) (i : ino) : sim :=
+  let s := sst m in
+  Sim (State (now s) (file s) (upd (content s) i FGarbage) (nexti s) (cs s) (cproc s) (tids s) (hb s) (lastcreate s) (mtime s))
+      (script m) (cancelled m) (outlog m) (trace m) (stopped m) (slow_rm m) (stale_at m) (lat0 m) (lats m).
+Definition crash_create (m : sim) (t : tid) (p : pid) (g : bool) : sim :=
+  match take m (LStart t p) with
+  | Some m1 =>
+      match take m1 (LTryCreate t) with
+      | Some m2 =>
+          let created := match cs (sst m2) t with CCreated _ i => Some i | _ => None end in
+          match take m2 (LKill p) with
+          | Some m3 => match created with Some i => if g then garble m3 i else m3 | None => m3 end
+          | None => m2
+          end
+      | None => m1
+      end
+  | None => m
   end.
 
 Definition sim_step (m : sim) : option sim :=
@@ -439,6 +463,7 @@ Definition sim_step (m : sim) : option sim :=
                          end) (slow_rm m) (stale_at m) (lat0 m) (lats m) in
           match e with
           | ECancel _ | EStop _ | ECont _ => Some m'   (* take effect at the next steps *)
+          | ECrashCreate t p g => Some (crash_create m' t p g)
           | _ => match take m' (label_of_event e) with Some m'' => Some m'' | None => Some m' end
           end
       else
